@@ -118,8 +118,8 @@ FAMILIES = [dict(name='cm', harness='drv_cm.cpp', extract='Extract_cm.v', model=
 MANIFEST = dict(
     level_text=('Theorems (coq/Properties_C14.v, axiom-free) for ANY family of row hash functions and any update sequence: every cell holds exactly '
                 'the weight hashed to it, estimate >= true weight and <= total for non-negative weights, total = sum |w|, merge = sketch of the '
-                'concatenated streams, self/incompatible merges refused. The model is tied to count_min_impl.hpp by running both on the same '
-                'generated scripts (cells, estimates, totals compared exactly) and by evaluating the property predicates on the implementation outputs.'),
+                'concatenated streams, self/incompatible merges refused (operands agreeing on some but not all of hashes / buckets / seed / cell count). The model is tied to count_min_impl.hpp (weight types int64_t and int32_t) by running both on the same '
+                'generated scripts (cells, estimates, totals compared exactly) and by evaluating the property predicates on the implementation outputs; serialize/deserialize points (bytes and stream) must restore seed, row seeds and cells and are followed by further updates (the byte layout itself is C09/C10/C11, family cmcodec); distinct row seeds are checked as a necessary condition of the confidence clause.'),
     level_note=('Trusted: Coq kernel; hand-written model validated only by the correspondence runs; row seeds read from the object; Murmur model; '
                 'int64 overflow not modelled; upper bound (floating point) only checked as est <= ub on the implementation; confidence clause statistical, not claimed.'),
     design_ref='DESIGN.md section 5 C14')
